@@ -1,45 +1,42 @@
-(** C07 — NOR (and HNO) reach every existing normal form; CBN (and HSP) the head forms *)
-From LC Require Import Model.Reduction Spec.Confluence Spec.Standard Proofs.Sound Proofs.ReduceProps Proofs.Normalise.
+(** C07 — NOR and HNO reach every existing normal form; CBN and HSP the head forms *)
+From LC Require Import Model.Reduction Spec.Confluence Spec.Standard Spec.HeadRed
+  Proofs.Sound Proofs.ReduceProps Proofs.Normalise Proofs.HeadSpine.
 
 (** standardisation, the theorem of the calculus everything below rests on *)
 Theorem C07_standardization : forall t u, red t u -> st t u.
 Proof. exact standardization. Qed.
 
+(** if some reduction sequence reaches a beta-normal form v, reduce with NOR or HNO and limit 0
+    terminates with exactly v *)
 Theorem C07_nor : forall t v, red t v -> nfb v = true -> exists fuel c, reduce_m fuel NOR 0 t = Some (v, c).
 Proof. exact nor_normalises. Qed.
 
+Theorem C07_hno : forall t v, red t v -> nfb v = true -> exists fuel c, reduce_m fuel HNO 0 t = Some (v, c).
+Proof. exact hno_reduce_normalises. Qed.
+
+(** CBN terminates whenever a weak head normal form exists, HSP whenever a head normal form exists *)
 Theorem C07_cbn : forall t w, red t w -> whnfb w = true -> exists fuel r, reduce_m fuel CBN 0 t = Some r.
 Proof. exact cbn_normalises. Qed.
 
-(** HNO and HSP: what is proved is partial.  If HNO terminates, its result is the normal form
-    (soundness, for every term); termination of HNO/HSP whenever the (head) normal form exists is
-    NOT proved here (it needs the head-spine strip lemma, DESIGN.md section 4 C07 (d),(e));
-    the check decides that clause by running the implementation on terms with planted normal forms. *)
-Theorem C07_hno_partial : forall fuel t v u c, red t v -> nfb v = true ->
-  reduce_m fuel HNO 0 t = Some (u, c) -> u = v.
-Proof.
-  intros fuel t v u c R N H.
-  pose proof (reduce_stops_normal _ _ _ _ _ _ H (or_introl eq_refl)) as Nu. simpl in Nu.
-  apply reduce_steps, steps_star in H.
-  eapply nf_unique; eauto; apply nfb_nf; auto.
-Qed.
+Theorem C07_hsp : forall t h, red t h -> hnfb h = true -> exists fuel r, reduce_m fuel HSP 0 t = Some r.
+Proof. exact hsp_reduce_normalises. Qed.
 
-Theorem C07_hsp_partial : forall fuel t u c, reduce_m fuel HSP 0 t = Some (u, c) -> hnfb u = true /\ red t u.
-Proof.
-  intros fuel t u c H. split.
-  - apply (reduce_stops_normal _ _ _ _ _ _ H (or_introl eq_refl)).
-  - eapply steps_star, reduce_steps; eauto.
-Qed.
+(** the lemma behind HSP and HNO: head reduction length never grows along a reduction *)
+Theorem C07_head_length_monotone : forall t u n, red t u -> HL t n -> exists m, m <= n /\ HL u m.
+Proof. exact HL_red. Qed.
 
 (** non-vacuity, and "even when eager orders diverge": (λ.2) Ω *)
 Definition omega := App (Abs (App (Var 1) (Var 1))) (Abs (App (Var 1) (Var 1))).
 Example C07_example_nor : reduce_m 20 NOR 0 (App (Abs (Var 2)) omega) = Some (Var 1, 1).
+Proof. reflexivity. Qed.
+Example C07_example_hno : reduce_m 20 HNO 0 (App (Abs (Var 2)) omega) = Some (Var 1, 1).
 Proof. reflexivity. Qed.
 Example C07_example_app_diverges : reduce_m 300 APP 0 (App (Abs (Var 2)) omega) = None.
 Proof. vm_compute. reflexivity. Qed.
 
 Print Assumptions C07_standardization.
 Print Assumptions C07_nor.
+Print Assumptions C07_hno.
 Print Assumptions C07_cbn.
-Print Assumptions C07_hno_partial.
-Print Assumptions C07_hsp_partial.
+Print Assumptions C07_hsp.
+Print Assumptions C07_head_length_monotone.
